@@ -1,10 +1,87 @@
 import Driver.Util
+import Hv.Misc.Hydrex
 
-/-! Placeholder: the line-protocol driver of domain C27 is not written yet. -/
+/-! Line-protocol driver for the Hydrex model (domain C27).  Same ops and reply format as
+    `/verif/harness/c27.go`.  Besides the model state it tracks the Spec state (the last saved
+    items of every (index name, domain), nothing after a destroy).  A `core` reply is flagged
+    `C27-value-update-skipped` when it has the Spec's keys but other values, `C27-stale-keys-kept`
+    when the keys differ; an `index` reply is flagged `C27-destroy-leaves-index` /
+    `C27-index-inconsistent` when it is not the set of domains whose model core holds the key. -/
 namespace Driver.C27
+open Hv.Hydrex
 
-def run (_args : List String) : IO UInt32 := do
-  IO.eprintln "drv: domain C27 has no driver yet"
-  return 2
+structure DSt where
+  cfg : Cfg
+  s : St
+  spec : Idx → Dom → Key → Option Val
+
+def tok (pre : Char) (s : String) : Option Nat :=
+  match s.toList with
+  | c :: rest => if c == pre then (String.ofList rest).toNat? else none
+  | [] => none
+
+def parseItems (s : String) : Option (List (Key × Val)) :=
+  if s == "-" then some []
+  else (s.splitOn ",").mapM fun kv =>
+    match kv.splitOn "=" with
+    | [k, v] => match tok 'k' k, tok 'v' v with
+      | some a, some b => some (a, b)
+      | _, _ => none
+    | _ => none
+
+def itemsFn (l : List (Key × Val)) : Key → Option Val := fun k => l.lookup k
+
+def keys : List Nat := [0, 1, 2, 3, 4]
+def doms : List Nat := [0, 1, 2]
+
+def renderCore (f : Key → Option Val) : String :=
+  let parts := keys.filterMap fun k => (f k).map fun v => s!"k{k}=v{v}"
+  if parts.isEmpty then "-" else ",".intercalate parts
+
+def step (d : DSt) (line : String) : DSt × String :=
+  match line.splitOn " " with
+  | ["case", _] => ({ d with s := init, spec := fun _ _ _ => none }, line)
+  | ["save", i, dm, its] =>
+    match tok 'i' i, tok 'd' dm, parseItems its with
+    | some i, some dm, some l =>
+      let f := itemsFn l
+      ({ d with s := Hv.Hydrex.step d.cfg d.s (.save i dm f),
+                spec := fun i' d' k => if i' = i ∧ d' = dm then f k else d.spec i' d' k }, "ok")
+    | _, _, _ => (d, "bad-op")
+  | ["destroy", i, dm] =>
+    match tok 'i' i, tok 'd' dm with
+    | some i, some dm =>
+      ({ d with s := Hv.Hydrex.step d.cfg d.s (.destroy i dm),
+                spec := fun i' d' k => if i' = i ∧ d' = dm then none else d.spec i' d' k }, "ok")
+    | _, _ => (d, "bad-op")
+  | ["core", i, dm] =>
+    match tok 'i' i, tok 'd' dm with
+    | some i, some dm =>
+      let got := keys.map (d.s.core i dm)
+      let want := keys.map (d.spec i dm)
+      let fl :=
+        if got == want then ""
+        else if got.map Option.isSome == want.map Option.isSome then "\t#F:C27-value-update-skipped"
+        else "\t#F:C27-stale-keys-kept"
+      (d, "core " ++ renderCore (d.s.core i dm) ++ fl)
+    | _, _ => (d, "bad-op")
+  | ["index", i, k] =>
+    match tok 'i' i, tok 'k' k with
+    | some i, some k =>
+      let got := doms.filter fun dm => d.s.index i k dm
+      let want := doms.filter fun dm => (d.s.core i dm k).isSome
+      let fl := if got == want then "" else
+        (if d.cfg.destroyCleansIndex then "\t#F:C27-index-inconsistent" else "\t#F:C27-destroy-leaves-index")
+      let parts := got.map fun dm => s!"d{dm}"
+      (d, "index " ++ (if parts.isEmpty then "-" else ",".intercalate parts) ++ fl)
+    | _, _ => (d, "bad-op")
+  | _ => (d, "bad-op")
+
+def run (args : List String) : IO UInt32 := do
+  let kv := parseArgs args
+  let yes (k : String) : Bool := arg kv k == "yes"
+  let cfg : Cfg := ⟨yes "updatesExisting", yes "saveRemovesStale", yes "destroyCleansIndex"⟩
+  lineLoop step ⟨cfg, init, fun _ _ _ => none⟩
+  return 0
 
 end Driver.C27
